@@ -257,6 +257,8 @@ def run(ctx, tier, res, tag=''):
                 res.undec(text)
     res.sample({'list_lengths': [1, 5, 0], 'packed_octets': 12, 'pack': 'BE16 length + bytes per string, total recorded',
                 'count': 3, 'unpack_requested': [2, 3, 5], 'verdict': 'lengths and bytes equal; nothing read beyond octet 12'})
+    from .. import promises
+    promises.report(ctx, res, [PACK, COUNT, UNPACK], promises.MEMORY_KINDS, tag)
     res.rule = ('per list shape (every list of 1..3 strings with lengths from {0,1,5,130,255,300} [thorough {0,1,2,3,127,128,255,256,300,511,512}], [], [2,0,7,1], 256 empty and 300 mixed strings; thorough adds 1000/2000 strings, 65533 and 32767+32764 octets): '
                 'pack, count and unpack interpreted on exact-extent regions with symbolic string bytes; unpack with requested count '
                 'k-1, k, k+2 and with/without destinations; results must equal the reference packing and no access may leave the '
